@@ -52,10 +52,11 @@ cs_hnd_small(coap_resource_t *r, coap_session_t *s, const coap_pdu_t *req, const
   } else
     coap_pdu_set_code(resp, COAP_RESPONSE_CODE_CHANGED);
 }
+static size_t cs_big_len = 100; /* body length /big serves */
 static void
 cs_hnd_big(coap_resource_t *r, coap_session_t *s, const coap_pdu_t *req, const coap_string_t *q, coap_pdu_t *resp) {
   CS->srv_calls++;
-  size_t n = 100;
+  size_t n = cs_big_len;
   uint8_t *b = malloc(n);
   if (!b) {
     coap_pdu_set_code(resp, COAP_RESPONSE_CODE_INTERNAL_ERROR);
